@@ -14,6 +14,7 @@ real engine by the watchdog of the harness (a stall is a truncated trace), not p
 -/
 import LLBuild.Lemmas.Engine.Run
 import LLBuild.Lemmas.Engine.Fingerprint
+import LLBuild.Props.C01
 
 set_option linter.unusedVariables false
 
@@ -121,5 +122,80 @@ theorem C07_failure_has_cause {P : Program} {s s' : St} {v : Val}
           · right; left; exact a
           · right; right; exact a
         · cases h
+
+/-- A set of keys is *cyclic* when every task of a key in the set, however its inputs arrive, ends
+up asking for the value of some key in the set again: every delivery sequence it can complete
+contains a value-carrying request for a key of the set. -/
+def CyclicSet (P : Program) (C : Key → Prop) : Prop :=
+  ∀ k, C k → ∀ seq, validSeq P k seq = true → completeSeq P k seq = true →
+    ∃ q v, (q, v) ∈ seq ∧ q.kind = 0 ∧ C q.key
+
+/-- no key of a cyclic set has a clean-build value -/
+theorem Clean_not_cyclic {P : Program} {C : Key → Prop} (hC : CyclicSet P C) {env : Env} {k : Key} {v : Val}
+    (h : Clean P env k v) : ¬ C k := by
+  induction h with
+  | mk k seq hv hc _ ih =>
+    intro hk
+    obtain ⟨q, w, hq, hk0, hCq⟩ := hC k hk seq hv hc
+    exact ih q w hq hk0 hCq
+
+/-- **A real cycle is never silently ignored.**  If the requested key lies in a cyclic set, no
+accepted history — whatever was built before, whatever the schedule — ends that build with a
+successful return: any `ret` the engine performs happens after a cancellation, a reported error or a
+reported cycle (so when the client did not cancel and no error was reported, a cycle was reported).
+Cycles that pass only through single-use or must-follow requests carry no value and are outside
+this statement (they are decided by the oracle on the real engine). -/
+theorem C07_cycle_never_succeeds {P : Program} (hP : P.WF) {C : Key → Prop} (hC : CyclicSet P C)
+    {evs : List Event} {s s' : St} {v : Val} {r : Key}
+    (hrun : run P {} evs = some s) (ht : s.target = some r) (hr : C r)
+    (hret : step P s (.ret v) = some s') (hnd : s'.pendingDropped = false) :
+    s.cancelled = true ∨ s.cycleSeen = true ∨ s.errSeen = true := by
+  cases h1 : s.cancelled
+  · cases h2 : s.cycleSeen
+    · cases h3 : s.errSeen
+      · exfalso
+        obtain ⟨root, hroot, hclean⟩ := C01_value hP hrun hret hnd ⟨h1, h2, h3⟩
+        rw [ht] at hroot; cases hroot
+        exact Clean_not_cyclic hC hclean hr
+      · right; right; rfl
+    · right; left; rfl
+  · left; rfl
+
+namespace CycleExample
+/-- keys 1 and 2 ask for each other's value -/
+def P : Program where
+  sig := fun _ _ => 0
+  valid := fun _ _ _ => true
+  next := fun k _ => if k = 1 then [⟨2, 0, 0⟩] else if k = 2 then [⟨1, 0, 0⟩] else []
+  disc := fun _ _ => []
+  out := fun _ _ recv => (recv.map (·.2)).sum
+  force := fun _ => false
+  self := fun _ => false
+
+theorem issued_first (k : Key) (q : Req) (h : q ∈ issuedAfter P k []) : ∀ seq, q ∈ issuedAfter P k seq
+  | [] => h
+  | (a, w) :: rest => by
+    simp only [issuedAfter]
+    exact List.mem_append_left _ (issued_first k q h rest)
+
+/-- non-vacuity: `{1, 2}` is a cyclic set of this program -/
+theorem cyclic : CyclicSet P (fun k => k = 1 ∨ k = 2) := by
+  intro k hk seq hv hc
+  -- the first request of either task is for the other key and must have been answered
+  have key : ∀ q, q ∈ issuedAfter P k [] → q.kind = 0 → (q.key = 1 ∨ q.key = 2) →
+      ∃ q v, (q, v) ∈ seq ∧ q.kind = 0 ∧ (q.key = 1 ∨ q.key = 2) := by
+    intro q hq hk0 hkey
+    have hall := hc
+    simp only [completeSeq, List.all_eq_true, Bool.or_eq_true, beq_iff_eq] at hall
+    rcases hall q (issued_first k q hq seq) with h2 | hd
+    · rw [hk0] at h2; cases h2
+    · simp only [delivered, List.any_eq_true, beq_iff_eq] at hd
+      obtain ⟨qv, hqv, e⟩ := hd
+      exact ⟨qv.1, qv.2, hqv, by rw [e]; exact hk0, by rw [e]; exact hkey⟩
+  rcases hk with rfl | rfl
+  · exact key ⟨2, 0, 0⟩ (by decide) rfl (Or.inr rfl)
+  · exact key ⟨1, 0, 0⟩ (by decide) rfl (Or.inl rfl)
+
+end CycleExample
 
 end LLBuild.Engine
